@@ -28,4 +28,13 @@ def context(mode=None, suppressed=None):
         mode = z3.BitVec('ctx_mode', 64)
     if suppressed is None:
         suppressed = z3.Bool('ctx_suppressed')
-    return Agg('Context', None, (CEnum('Mode', mode, 64), suppressed), ('mode', 'break_suppressed'))
+    # field order from the current sources; fields this harness does not know are flags that start out false (as in Context::default())
+    from mirsym import adts as _adts
+    global _CTX_FIELDS
+    if _CTX_FIELDS is None:
+        _CTX_FIELDS = tuple(_adts.load_adts().structs.get('Context') or ('mode', 'break_suppressed'))
+    vals = {'mode': CEnum('Mode', mode, 64), 'break_suppressed': suppressed}
+    return Agg('Context', None, tuple(vals.get(n, False) for n in _CTX_FIELDS), _CTX_FIELDS)
+
+
+_CTX_FIELDS = None
